@@ -114,6 +114,16 @@ class ClassInfo:
                     out.append(c)
         return out
 
+    def instantiable_subclasses(self) -> List["ClassInfo"]:
+        """Subclasses (including self) that can have direct instances: a class with abstract methods that derives from
+        abc.ABC cannot be instantiated (enforced by ABCMeta)."""
+        out = []
+        for c in self.all_subclasses():
+            if c.is_abstract and any("ABC" in e for e in c.external_ancestors()):
+                continue
+            out.append(c)
+        return out or self.all_subclasses()
+
     def external_ancestors(self) -> List[str]:
         out = []
         for c in self.mro():
